@@ -34,7 +34,7 @@ PROPS = {
                       r'^tx:(EnableAttester|DisableAttester|UpdateSignatureThreshold):out$',
                       r'^after:tx:(EnableAttester|DisableAttester|UpdateSignatureThreshold):store:(Attester|SignatureThreshold)$'],
                 ops=[('verify', ''), ('tx', 'ReceiveMessage'), ('tx', 'ReplaceMessage'), ('tx', 'ReplaceDepositForBurn')]),
-    'C02': dict(level='proof', scenarios=[('history', 4000, 30000, 'recv'), ('selftest', 300, 3000, '')],
+    'C02': dict(level='proof', scenarios=[('history', 4000, 30000, 'recv'), ('bulk', 300, 3000, ''), ('selftest', 300, 3000, '')],
                 tags=[r'^tx:ReceiveMessage:out$', r'^query:UsedNonces?$', r'^store:UsedNonce$', r'^genesis-export:used$', r'^key$'],
                 ops=[('tx', 'ReceiveMessage'), ('query', 'UsedNonce'), ('query', 'UsedNonces'), ('key', ''), ('genesis-export', '')]),
     'C03': dict(level='proof', scenarios=[('recvmatrix', 3000, 40000, ''), ('history', 2500, 20000, 'recv')],
@@ -48,8 +48,10 @@ PROPS = {
                 # an emitting transaction that succeeds where it must not emits a message the property forbids
                 only_impl_ok=[r'^tx:' + alt(PRODUCERS + REPLACERS) + r':out$'],
                 ops=[('tx', t) for t in PRODUCERS + REPLACERS]),
-    'C06': dict(level='proof', scenarios=[('history', 4000, 30000, 'send'), ('depmatrix', 1500, 20000, '')],
+    'C06': dict(level='proof', scenarios=[('history', 4000, 30000, 'send'), ('depmatrix', 1500, 20000, ''), ('replace', 1500, 20000, '')],
                 tags=[r'^tx:' + alt(PRODUCERS + REPLACERS) + r':resp$', r'^ev:(MessageSent|DepositForBurn)$'],
+                # a transaction that emits where the model emits nothing has emitted a message nobody requested in that form
+                only_impl_ok=[r'^tx:' + alt(PRODUCERS + REPLACERS) + r':out$'],
                 ops=[('tx', t) for t in PRODUCERS + REPLACERS]),
     'C07': dict(level='proof', scenarios=[('nonces', 2500, 30000, ''), ('history', 2500, 20000, 'send')],
                 tags=[r'^tx:' + alt(PRODUCERS + REPLACERS) + r':(out|resp)$', r'^ev:MessageSent$', r'^query:NextAvailableNonce$', r'^store:NextAvailableNonce$'],
@@ -85,14 +87,14 @@ PROPS = {
     'C16': dict(level='proof', scenarios=[('codec', 4000, 60000, '')],
                 tags=[r'^msg-parse$', r'^msg-bytes$', r'^burn-parse$', r'^burn-bytes$'],
                 ops=[('msg-parse', ''), ('msg-bytes', ''), ('burn-parse', ''), ('burn-bytes', '')]),
-    'C17': dict(level='proof', scenarios=[('genesis', 2500, 30000, ''), ('history', 1500, 15000, 'export')],
+    'C17': dict(level='proof', scenarios=[('genesis', 2500, 30000, ''), ('history', 1500, 15000, 'export'), ('bulk', 300, 3000, '')],
                 tags=[r'^genesis-validate$', r'^genesis-init$', r'^genesis-export(:.*)?$', r'^after:genesis-init:.*$', r'^roundtrip$'],
                 ops=[('genesis-validate', ''), ('genesis-init', ''), ('genesis-export', '')]),
     'C18': dict(level='other', scenarios=[('history', 3000, 20000, '')],
                 tags=[r'.*'],
                 ops=[('tx', None), ('query', None)],
                 explanation='see DESIGN.md C18: determinism is shown by agreement of every replay with the (functional) Lean model plus replay-vs-replay comparison of app hash, responses and events; scheduler/map-order effects are explored, not proved'),
-    'C19': dict(level='proof', scenarios=[('registry', 3000, 40000, ''), ('history', 2500, 20000, 'query'), ('selftest', 300, 3000, '')],
+    'C19': dict(level='proof', scenarios=[('registry', 3000, 40000, ''), ('history', 2500, 20000, 'query'), ('bulk', 300, 3000, ''), ('selftest', 300, 3000, '')],
                 tags=[r'^query:.*$', r'^key$', r'^store:(Attester|PerMessageBurnLimit|TokenPair|RemoteTokenMessenger|UsedNonce)$',
                       r'^tx:(EnableAttester|DisableAttester|LinkTokenPair|UnlinkTokenPair|AddRemoteTokenMessenger|RemoveRemoteTokenMessenger|SetMaxBurnAmountPerMessage):out$'],
                 ops=[('query', None), ('key', '')]),
